@@ -1770,3 +1770,413 @@ Proof.
   all: try (cbn [app]; rewrite dec_cstr_app by exact X; reflexivity).
   all: destruct f as [i|]; [apply file_raw_val in E; cbn [e_ver] in E; now subst a|cbn in E; now injection E as <-].
 Qed.
+
+(* ------------------------------------------------------------------ no panic in the two passes *)
+
+Lemma sleb_size_fuel_le f : forall z, sleb_size_fuel f z <= N.of_nat f.
+Proof.
+  induction f as [|f IH]; intros z; cbn [sleb_size_fuel]; [lia|]. cbv zeta.
+  destruct ((Z.shiftr z 6 =? 0)%Z || (Z.shiftr z 6 =? -1)%Z); [lia|].
+  specialize (IH (Z.shiftr (Z.shiftr z 6) 1)). lia.
+Qed.
+Lemma sleb128_size_le z : sleb128_size z <= 10.
+Proof. apply (sleb_size_fuel_le 10). Qed.
+
+(* an upper bound of AttributeValue::size that does not depend on the build mode *)
+Definition asize_ub (e : encoding) (v : aval) : N :=
+  match v with
+  | AvAddress _ => e_asz e
+  | AvBlock bs => 10 + UnitWr.blen bs
+  | AvString bs => UnitWr.blen bs + 1
+  | AvExprloc x => match x_size x with Ok n => 10 + n | _ => 0 end
+  | AvData16 _ => 16
+  | AvDebugInfoRef _ => N.max (e_asz e) 8
+  | _ => 10
+  end.
+
+Lemma av_size_le dbg e v s : av_size dbg e v = Ok s -> s <= asize_ub e v.
+Proof.
+  destruct e as [ver fmt asz]. intros H.
+  destruct v; unfold av_size in H; revert H; unfold_asserts; case_ver ver; destruct fmt; asserts; intros H.
+  all: try (exfalso; lia).
+  all: unfold asize_ub; cbn [e_asz].
+  all: try (injection H as <-; lia).
+  all: try (injection H as <-; first [apply uleb128_size_le | apply sleb128_size_le]).
+  all: try (destruct (ver =? 2); injection H as <-; lia).
+  all: try (unfold chk_add in H; assert (U := uleb128_size_le (UnitWr.blen bs));
+            destruct (_ <? 2 ^ 64) eqn:L in H; [injection H as <-; lia|destruct dbg; [discriminate|injection H as <-];
+            unfold wrapN; etransitivity; [apply N.mod_le; discriminate|lia]]).
+  all: try (binds; match goal with E : x_size ?x = Ok ?n |- _ => rewrite E end;
+            match goal with n : N |- _ => assert (U := uleb128_size_le n) end;
+            unfold chk_add in H; destruct (_ <? 2 ^ 64) eqn:L in H;
+            [injection H as <-; lia|destruct dbg; [discriminate|injection H as <-];
+             unfold wrapN; etransitivity; [apply N.mod_le; discriminate|lia]]).
+  all: try (binds; injection H as <-; apply uleb128_size_le).
+Qed.
+
+Fixpoint attrs_ub (e : encoding) (attrs : list (N * aval)) : N :=
+  match attrs with [] => 0 | (_, v) :: r => asize_ub e v + attrs_ub e r end.
+
+Fixpoint dsize_ub (e : encoding) (d : die) : N :=
+  match d with
+  | Die _ _ _ attrs ch =>
+      19 + attrs_ub e attrs + (fix go (l : list die) : N := match l with [] => 0 | c :: r => dsize_ub e c + go r end) ch
+  end.
+Section dsizes.
+  Variable e : encoding.
+  Fixpoint dsizes_ub (l : list die) : N :=
+    match l with [] => 0 | c :: r => dsize_ub e c + dsizes_ub r end.
+End dsizes.
+Lemma dsize_ub_unfold e id tag sib attrs ch :
+  dsize_ub e (Die id tag sib attrs ch) = 19 + attrs_ub e attrs + dsizes_ub e ch.
+Proof. reflexivity. Qed.
+
+Fixpoint die_typed (cx : wcx) (d : die) : Prop :=
+  match d with
+  | Die _ _ _ attrs ch =>
+      Forall (fun p => av_typed cx (snd p)) attrs /\
+      (fix go (l : list die) : Prop := match l with [] => True | c :: r => die_typed cx c /\ go r end) ch
+  end.
+Section dtyped.
+  Variable cx : wcx.
+  Fixpoint dies_typed (l : list die) : Prop :=
+    match l with [] => True | c :: r => die_typed cx c /\ dies_typed r end.
+End dtyped.
+Lemma die_typed_unfold cx id tag sib attrs ch :
+  die_typed cx (Die id tag sib attrs ch) = (Forall (fun p => av_typed cx (snd p)) attrs /\ dies_typed cx ch).
+Proof. reflexivity. Qed.
+
+Lemma attrs_size_no_panic dbg cx : forall attrs acc,
+  Forall (fun p => av_typed cx (snd p)) attrs -> acc + attrs_ub (wc_enc cx) attrs < 2 ^ 64 ->
+  attrs_size dbg (wc_enc cx) acc attrs <> Panic /\
+  (forall r, attrs_size dbg (wc_enc cx) acc attrs = Ok r -> r <= acc + attrs_ub (wc_enc cx) attrs).
+Proof.
+  induction attrs as [|[n v] r IH]; intros acc T B; cbn [attrs_size attrs_ub] in *.
+  - split; [discriminate|]. intros ? H. injection H as <-. lia.
+  - inversion T as [|? ? T1 T2]; subst. cbn [snd] in T1.
+    assert (NP := av_size_no_panic_lemma dbg cx v T1).
+    destruct (av_size dbg (wc_enc cx) v) as [s| | |] eqn:Es; try (split; [discriminate|intros; discriminate]); [|contradiction].
+    cbn [bind]. assert (Ls := av_size_le _ _ _ _ Es).
+    rewrite chk_add_ok by lia. cbn [bind].
+    destruct (IH (acc + s) T2) as [I1 I2]; [lia|]. split; [exact I1|].
+    intros r0 H. specialize (I2 _ H). lia.
+Qed.
+
+Lemma aspec_new_form dbg e name v :
+  let (form, ic) := av_form e v in exists s, aspec_new dbg name form ic = Ok s.
+Proof.
+  destruct e as [ver fmt asz].
+  destruct v; cbn [av_form]; unfold word_form; cbn [e_ver e_fmt64]; case_ver ver; try destruct fmt;
+    unfold aspec_new; cbn [Bool.eqb]; rewrite ?dassert_true; cbn [bind]; eauto.
+Qed.
+
+Lemma attr_specs_no_panic dbg e : forall attrs, attr_specs dbg e attrs <> Panic.
+Proof.
+  induction attrs as [|[n v] r IH]; cbn [attr_specs]; [discriminate|].
+  assert (A := aspec_new_form dbg e n v). destruct (av_form e v) as [form ic]. destruct A as [s ->]. cbn [bind].
+  destruct (attr_specs dbg e r); try discriminate. contradiction.
+Qed.
+
+Lemma die_abbrev_no_panic dbg e d : die_abbrev dbg e d <> Panic.
+Proof.
+  destruct d as [id tag sib attrs ch]. unfold die_abbrev.
+  assert (S : exists l, (if sib && has_kids ch
+                         then let* s := aspec_new dbg DW_AT_sibling (word_form e DW_FORM_ref4 DW_FORM_ref8) None in Ok [s]
+                         else Ok []) = Ok l).
+  { destruct (sib && has_kids ch); [|eauto]. unfold aspec_new, word_form.
+    destruct (e_fmt64 e); cbn [Bool.eqb]; rewrite dassert_true; cbn [bind]; eauto. }
+  destruct S as [l ->]. cbn [bind].
+  assert (A := attr_specs_no_panic dbg e attrs).
+  destruct (attr_specs dbg e attrs); try discriminate. contradiction.
+Qed.
+
+Definition ids_in_range (ids : list nat) (st : cst) : Prop :=
+  forall i, In i ids -> (i < length (cs_entries st))%nat /\ (i < length (cs_codes st))%nat.
+
+Definition calc_np (dbg : bool) (cx : wcx) (d : die) : Prop :=
+  forall st, die_typed cx d -> ids_in_range (die_ids d) st ->
+    cs_off st + dsize_ub (wc_enc cx) d < 2 ^ 64 ->
+    calc dbg (wc_enc cx) d st <> Panic /\
+    (forall st', calc dbg (wc_enc cx) d st = Ok st' -> cs_off st' <= cs_off st + dsize_ub (wc_enc cx) d).
+
+Lemma calc_list_np dbg cx ch :
+  Forall (calc_np dbg cx) ch ->
+  forall st, dies_typed cx ch -> ids_in_range (dies_ids ch) st ->
+    cs_off st + dsizes_ub (wc_enc cx) ch < 2 ^ 64 ->
+    calc_list dbg (wc_enc cx) ch st <> Panic /\
+    (forall st', calc_list dbg (wc_enc cx) ch st = Ok st' -> cs_off st' <= cs_off st + dsizes_ub (wc_enc cx) ch).
+Proof.
+  induction 1 as [|c r Hc Hr IH]; intros st T R B; cbn [calc_list dsizes_ub dies_typed] in *.
+  - split; [discriminate|]. intros ? H. injection H as <-. lia.
+  - destruct T as [T1 T2]. unfold dies_ids in R. cbn [flat_map] in R.
+    destruct (Hc st T1) as [N1 N2]; [intros i Hi; apply R; apply in_or_app; now left|lia|].
+    destruct (calc dbg (wc_enc cx) c st) as [sA| | |] eqn:EA; try (split; [discriminate|intros; discriminate]); [|contradiction].
+    cbn [bind]. specialize (N2 _ eq_refl).
+    destruct (calc_frame _ _ _ _ _ EA) as [L1 [L2 _]].
+    destruct (IH sA T2) as [I1 I2].
+    + intros i Hi. destruct (R i) as [R1 R2]; [apply in_or_app; now right|]. rewrite L1, L2. now split.
+    + lia.
+    + split; [exact I1|]. intros st' H. specialize (I2 _ H). lia.
+Qed.
+
+Theorem calc_no_panic_lemma dbg cx : forall d, calc_np dbg cx d.
+Proof.
+  induction d as [id tag sib attrs ch IH] using die_ind2.
+  intros st T R B. rewrite die_typed_unfold in T. destruct T as [Ta Tc].
+  rewrite dsize_ub_unfold in *. rewrite calc_unfold.
+  destruct (R id (or_introl eq_refl)) as [R1 R2].
+  destruct (set_nth_total id (cs_off st) _ R1) as [ents Eents]. rewrite Eents. cbn [bind].
+  assert (NA := die_abbrev_no_panic dbg (wc_enc cx) (Die id tag sib attrs ch)).
+  destruct (die_abbrev dbg (wc_enc cx) (Die id tag sib attrs ch)) as [ab| | |] eqn:Eab;
+    try (split; [discriminate|intros; discriminate]); [|contradiction].
+  cbn [bind]. destruct (abbrev_add (cs_abbrevs st) ab) as [code tab].
+  destruct (set_nth_total id code _ R2) as [codes Ecodes]. rewrite Ecodes. cbn [bind].
+  (* size of this entry *)
+  assert (Hsz : die_size dbg (wc_enc cx) (Die id tag sib attrs ch) code <> Panic /\
+                forall sz, die_size dbg (wc_enc cx) (Die id tag sib attrs ch) code = Ok sz ->
+                           sz <= 18 + attrs_ub (wc_enc cx) attrs).
+  { unfold die_size. assert (U := uleb128_size_le code).
+    assert (W : wsz (wc_enc cx) <= 8) by (unfold wsz; destruct (e_fmt64 (wc_enc cx)); lia).
+    destruct (sib && has_kids ch).
+    - rewrite chk_add_ok by lia. cbn [bind].
+      destruct (attrs_size_no_panic dbg cx attrs (uleb128_size code + wsz (wc_enc cx)) Ta) as [A1 A2]; [lia|].
+      split; [exact A1|]. intros sz H. specialize (A2 _ H). lia.
+    - cbn [bind]. destruct (attrs_size_no_panic dbg cx attrs (uleb128_size code) Ta) as [A1 A2]; [lia|].
+      split; [exact A1|]. intros sz H. specialize (A2 _ H). lia. }
+  destruct Hsz as [Hs1 Hs2].
+  destruct (die_size dbg (wc_enc cx) (Die id tag sib attrs ch) code) as [sz| | |] eqn:Esz;
+    try (split; [discriminate|intros; discriminate]); [|contradiction].
+  cbn [bind]. specialize (Hs2 _ eq_refl).
+  rewrite chk_add_ok by lia. cbn [bind]. cbv zeta.
+  destruct (set_nth_spec _ _ _ _ Eents) as [_ [_ S3]].
+  destruct (set_nth_spec _ _ _ _ Ecodes) as [_ [_ T3]].
+  destruct ch as [|c r].
+  - split; [discriminate|]. intros st' H. injection H as <-. cbn [cs_off dsizes_ub]. lia.
+  - destruct (calc_list_np dbg cx (c :: r) IH (mkCst (cs_off st + sz) ents tab codes) Tc) as [L1 L2].
+    + intros i Hi. cbn [cs_entries cs_codes]. rewrite S3, T3. apply R. cbn [die_ids]. now right.
+    + cbn [cs_off]. lia.
+    + destruct (calc_list dbg (wc_enc cx) (c :: r) (mkCst (cs_off st + sz) ents tab codes)) as [st2| | |] eqn:E2;
+        try (split; [discriminate|intros; discriminate]); [|contradiction].
+      cbn [bind]. specialize (L2 _ eq_refl). cbn [cs_off] in L2.
+      rewrite chk_add_ok by lia. cbn [bind].
+      split; [discriminate|]. intros st' H. injection H as <-. cbn [cs_off]. lia.
+Qed.
+
+(* the bytes written for a value are bounded like its size *)
+Lemma av_write_len_ub dbg cx v ops :
+  av_write dbg cx v = Ok ops -> expr_ok v -> ops_len ops <= asize_ub (wc_enc cx) v.
+Proof.
+  destruct cx as [e be u uoff ents codes line lstr str rng loc]. cbn [wc_enc].
+  destruct e as [ver fmt asz].
+  intros H X.
+  destruct v; unfold av_write in H; unfold asize_ub; cbn [wc_enc wc_be wc_line wc_loc wc_rng wc_str wc_lstr e_asz] in *;
+    revert H; unfold_asserts; case_ver ver; destruct fmt; asserts; intros H.
+  all: try (exfalso; lia).
+  all: try match goal with H : match ?a with AConst _ => _ | ASym _ _ => _ end = _ |- _ => destruct a; [|discriminate] end.
+  all: try match goal with H : match ?l with Some _ => _ | None => _ end = Ok _ |- _ => destruct l; [|discriminate] end.
+  all: try match goal with H : match ?r with DSym _ => _ | DEntry _ _ => _ end = _ |- _ => destruct r; [discriminate|] end.
+  all: try match goal with H : (if valid_size ?s then _ else _) = _ |- _ => destruct (valid_size s) eqn:?; [|discriminate] end.
+  all: binds.
+  all: try match goal with H : Ok _ = Ok _ |- _ => injection H as <- end.
+  all: repeat rewrite ops_len_cons in *; rewrite ?ops_len_nil in *; cbn [op_bytes] in *.
+  all: lens; rewrite ?zeros_blen, ?enc_un_blen, ?N.add_0_r in *.
+  all: try (change (UnitWr.blen [x00]) with 1).
+  all: try match goal with |- context [uleb128_size ?x] => assert (U := uleb128_size_le x) end.
+  all: try match goal with |- context [sleb128_size ?x] => assert (U := sleb128_size_le x) end.
+  all: try (cbn [UnitWr.blen length]; lia).
+  all: try (destruct (ver =? 2); lia).
+  all: try (unfold UnitWr.blen; cbn [length]; lia).
+  all: match goal with E : x_out ?x = Ok ?b, E2 : x_size ?x = Ok _ |- _ =>
+         cbn [expr_ok] in X; rewrite (X _ E) in E2; injection E2 as <-; rewrite (X _ E) in *; lia end.
+Qed.
+
+Lemma attrs_write_len_ub dbg cx : forall attrs aops,
+  attrs_write dbg cx attrs = Ok aops -> Forall (fun p => expr_ok (snd p)) attrs ->
+  ops_len aops <= attrs_ub (wc_enc cx) attrs.
+Proof.
+  induction attrs as [|[n v] r IH]; intros aops H X; cbn [attrs_write attrs_ub] in *.
+  - injection H as <-. rewrite ops_len_nil. lia.
+  - binds. injection H as <-. inversion X as [|? ? X1 X2]; subst. cbn [snd] in X1.
+    rewrite ops_len_app.
+    match goal with E : av_write _ _ v = Ok _ |- _ => assert (A := av_write_len_ub _ _ _ _ E X1) end.
+    match goal with E : attrs_write _ _ r = Ok _ |- _ => assert (B := IH _ E X2) end. lia.
+Qed.
+
+Lemma write_list_len_ub dbg cx ch :
+  Forall (fun d => forall pos ops, write_die dbg cx d pos = Ok ops -> die_expr_ok d ->
+                   ops_len ops <= dsize_ub (wc_enc cx) d) ch ->
+  forall pos ops, write_list dbg cx ch pos = Ok ops -> dies_expr_ok ch ->
+                  ops_len ops <= dsizes_ub (wc_enc cx) ch.
+Proof.
+  induction 1 as [|c r Hc Hr IH]; intros pos ops H X; cbn [write_list dsizes_ub dies_expr_ok] in *.
+  - injection H as <-. rewrite ops_len_nil. lia.
+  - binds. injection H as <-. destruct X as [X1 X2]. rewrite ops_len_app.
+    match goal with E : write_die _ _ c _ = Ok _ |- _ => assert (A := Hc _ _ E X1) end.
+    match goal with E : write_list _ _ r _ = Ok _ |- _ => assert (B := IH _ _ E X2) end. lia.
+Qed.
+
+Lemma write_die_len_ub dbg cx : forall d pos ops,
+  write_die dbg cx d pos = Ok ops -> die_expr_ok d -> ops_len ops <= dsize_ub (wc_enc cx) d.
+Proof.
+  induction d as [id tag sib attrs ch IH] using die_ind2. intros pos ops H X.
+  rewrite die_expr_ok_unfold in X. destruct X as [Xa Xc]. rewrite dsize_ub_unfold.
+  rewrite write_die_unfold in H.
+  apply bind_ok_inv in H. destruct H as [u0 [_ H]].
+  apply bind_ok_inv in H. destruct H as [code [_ H]].
+  apply bind_ok_inv in H. destruct H as [cb [Ecb H]]. cbv zeta in H.
+  apply bind_ok_inv in H. destruct H as [aops [Ea H]].
+  assert (La := attrs_write_len_ub _ _ _ _ Ea Xa).
+  assert (Lc : UnitWr.blen cb <= 10) by (rewrite (write_uleb128_len _ _ Ecb); apply uleb128_size_le).
+  destruct ch as [|c r].
+  - injection H as <-. rewrite !ops_len_cons. cbn [op_bytes dsizes_ub]. rewrite blen_nil. lia.
+  - apply bind_ok_inv in H. destruct H as [cops [Ec H]].
+    apply bind_ok_inv in H. destruct H as [sibb [Es H]]. injection H as <-.
+    assert (Lk := write_list_len_ub dbg cx (c :: r) IH _ _ Ec Xc).
+    assert (Ls : ops_len sibb <= 8).
+    { destruct (sib && has_kids (c :: r)).
+      - binds. injection Es as <-. rewrite ops_len_wb.
+        match goal with E : write_udata _ _ _ = Ok _ |- _ => rewrite (write_udata_len _ _ _ _ E) end.
+        unfold wsz. destruct (e_fmt64 (wc_enc cx)); lia.
+      - injection Es as <-. rewrite ops_len_nil. lia. }
+    rewrite !ops_len_cons, !ops_len_app, ops_len_wb. cbn [op_bytes]. rewrite blen_nil.
+    change (UnitWr.blen [x00]) with 1. lia.
+Qed.
+
+Lemma attrs_write_no_panic dbg cx : forall attrs,
+  Forall (fun p => av_typed cx (snd p)) attrs -> attrs_write dbg cx attrs <> Panic.
+Proof.
+  induction attrs as [|[n v] r IH]; intros T; cbn [attrs_write]; [discriminate|].
+  inversion T as [|? ? T1 T2]; subst. cbn [snd] in T1.
+  assert (A := av_write_no_panic_lemma dbg cx v T1).
+  destruct (av_write dbg cx v); try discriminate; [|contradiction]. cbn [bind].
+  specialize (IH T2). destruct (attrs_write dbg cx r); try discriminate. contradiction.
+Qed.
+
+Lemma write_udata_no_panic be v size : write_udata be v size <> Panic.
+Proof.
+  assert (W := write_udata_fits be v size). destruct (fits v size); [rewrite W; discriminate|].
+  destruct W as [b ->]. discriminate.
+Qed.
+
+Definition write_np (dbg : bool) (cx : wcx) (d : die) : Prop :=
+  forall st st',
+    calc dbg (wc_enc cx) d st = Ok st' ->
+    agree_on (die_ids d) (wc_entries cx) (cs_entries st') ->
+    agree_on (die_ids d) (wc_codes cx) (cs_codes st') ->
+    (forall i c, nth_error (wc_codes cx) i = Some c -> c < 2 ^ 64) ->
+    die_typed cx d -> die_expr_ok d -> NoDup (die_ids d) ->
+    0 < cs_off st -> wc_unit_off cx <= cs_off st ->
+    cs_off st + dsize_ub (wc_enc cx) d < 2 ^ 64 ->
+    write_die dbg cx d (cs_off st) <> Panic.
+
+Lemma write_list_np dbg cx ch :
+  Forall (write_np dbg cx) ch ->
+  forall st st',
+    calc_list dbg (wc_enc cx) ch st = Ok st' ->
+    agree_on (dies_ids ch) (wc_entries cx) (cs_entries st') ->
+    agree_on (dies_ids ch) (wc_codes cx) (cs_codes st') ->
+    (forall i c, nth_error (wc_codes cx) i = Some c -> c < 2 ^ 64) ->
+    dies_typed cx ch -> dies_expr_ok ch -> NoDup (dies_ids ch) ->
+    0 < cs_off st -> wc_unit_off cx <= cs_off st ->
+    cs_off st + dsizes_ub (wc_enc cx) ch < 2 ^ 64 ->
+    write_list dbg cx ch (cs_off st) <> Panic.
+Proof.
+  induction 1 as [|c r Hc Hr IH]; intros st st' HC HE HA HK T X ND P0 PU B;
+    cbn [calc_list write_list dsizes_ub dies_typed dies_expr_ok] in *; [discriminate|].
+  apply bind_ok_inv in HC. destruct HC as [sA [EA HC]].
+  destruct T as [T1 T2]. destruct X as [X1 X2]. unfold dies_ids in *. cbn [flat_map] in *.
+  assert (FR := calc_list_frame' _ _ _ _ _ HC). destruct FR as [_ [_ FR]].
+  assert (NDc := NoDup_app_l _ _ ND). assert (NDr := NoDup_app_r _ _ ND).
+  assert (Ac : agree_on (die_ids c) (wc_codes cx) (cs_codes sA)).
+  { intros i Hi. rewrite HA by (apply in_or_app; now left). apply (FR i). eapply NoDup_app_disj; eassumption. }
+  assert (Ae : agree_on (die_ids c) (wc_entries cx) (cs_entries sA)).
+  { intros i Hi. rewrite HE by (apply in_or_app; now left). apply (FR i). eapply NoDup_app_disj; eassumption. }
+  assert (N1 : write_die dbg cx c (cs_off st) <> Panic) by (eapply Hc; try eassumption; lia).
+  destruct (write_die dbg cx c (cs_off st)) as [o| | |] eqn:EW; try discriminate; [|contradiction].
+  cbn [bind].
+  assert (Lo := write_die_len_ub _ _ _ _ _ EW X1).
+  destruct (agree_all dbg cx c st sA o EA EW Ac NDc X1 ltac:(lia)) as [G1 _].
+  rewrite <- G1.
+  assert (N2 : write_list dbg cx r (cs_off sA) <> Panic).
+  { eapply IH; try eassumption.
+    - intros i Hi. apply HE. apply in_or_app. now right.
+    - intros i Hi. apply HA. apply in_or_app. now right.
+    - lia.
+    - lia.
+    - lia. }
+  destruct (write_list dbg cx r (cs_off sA)); try discriminate. contradiction.
+Qed.
+
+Theorem write_die_no_panic_lemma dbg cx : forall d, write_np dbg cx d.
+Proof.
+  induction d as [id tag sib attrs ch IH] using die_ind2.
+  intros st st' HC HE HA HK T X ND P0 PU B.
+  rewrite die_typed_unfold in T. destruct T as [Ta Tc].
+  rewrite die_expr_ok_unfold in X. destruct X as [Xa Xc].
+  rewrite dsize_ub_unfold in B. cbn [die_ids] in *. inversion ND as [|? ? NDid NDch]; subst.
+  rewrite calc_unfold in HC.
+  apply bind_ok_inv in HC. destruct HC as [ents [Eents HC]].
+  apply bind_ok_inv in HC. destruct HC as [ab [Eab HC]].
+  destruct (abbrev_add (cs_abbrevs st) ab) as [code tab] eqn:EAb.
+  apply bind_ok_inv in HC. destruct HC as [codes [Ecodes HC]].
+  apply bind_ok_inv in HC. destruct HC as [sz [Esz HC]].
+  apply bind_ok_inv in HC. destruct HC as [off1 [Eoff1 HC]]. cbv zeta in HC.
+  destruct (set_nth_spec _ _ _ _ Eents) as [S1 _].
+  destruct (set_nth_spec _ _ _ _ Ecodes) as [T1 _].
+  (* what the final tables hold for this entry *)
+  assert (Hfin : nth_error (wc_entries cx) id = Some (cs_off st) /\ nth_error (wc_codes cx) id = Some code).
+  { rewrite (HE id (or_introl eq_refl)), (HA id (or_introl eq_refl)).
+    destruct ch as [|c r].
+    - injection HC as <-. cbn [cs_entries cs_codes]. now split.
+    - apply bind_ok_inv in HC. destruct HC as [st2 [E2 HC]].
+      apply bind_ok_inv in HC. destruct HC as [off2 [_ HC]]. injection HC as <-. cbn [cs_entries cs_codes].
+      destruct (calc_list_frame' _ _ _ _ _ E2) as [_ [_ F]]. destruct (F id NDid) as [F1 F2].
+      rewrite F1, F2. cbn [cs_entries cs_codes]. now split. }
+  destruct Hfin as [He Hc].
+  rewrite write_die_unfold.
+  (* the debug assertion holds *)
+  assert (Hassert : (if dbg
+                     then let* here := debug_info_offset dbg (wc_unit cx) (wc_entries cx) (mkEid (wc_unit cx) id) in
+                          dassert dbg (match here with Some o => o =? cs_off st | None => false end)
+                     else Ok tt) = Ok tt).
+  { destruct dbg; [|reflexivity]. unfold debug_info_offset, idx_get, unwrap. cbn [id_unit id_idx].
+    rewrite Nat.eqb_refl, dassert_true. cbn [bind]. rewrite He. cbn [bind].
+    replace (cs_off st =? 0) with false by (symmetry; apply N.eqb_neq; lia).
+    rewrite N.eqb_refl. apply dassert_true. }
+  rewrite Hassert. cbn [bind].
+  unfold idx_get, unwrap. rewrite Hc. cbn [bind].
+  destruct (write_uleb128_total code (HK _ _ Hc)) as [cb Ecb]. rewrite Ecb. cbn [bind]. cbv zeta.
+  assert (Na := attrs_write_no_panic dbg cx attrs Ta).
+  destruct (attrs_write dbg cx attrs) as [aops| | |] eqn:Ea; try discriminate; [|contradiction].
+  cbn [bind].
+  destruct ch as [|c r]; [discriminate|].
+  (* position of the first child = the running offset after this entry's own bytes *)
+  assert (La := attrs_write_len_ub _ _ _ _ Ea Xa).
+  assert (Lc : UnitWr.blen cb <= 10) by (rewrite (write_uleb128_len _ _ Ecb); apply uleb128_size_le).
+  assert (W : wsz (wc_enc cx) <= 8) by (unfold wsz; destruct (e_fmt64 (wc_enc cx)); lia).
+  rewrite (die_size_eq dbg cx id tag sib attrs (c :: r) code cb aops Ecb Ea Xa) in Esz
+    by (cbn [has_kids]; rewrite andb_true_r; destruct sib; lia).
+  cbn [has_kids] in *. rewrite ?andb_true_r in *.
+  injection Esz as <-.
+  rewrite chk_add_ok in Eoff1 by (destruct sib; lia). injection Eoff1 as <-.
+  apply bind_ok_inv in HC. destruct HC as [st2 [E2 HC]].
+  apply bind_ok_inv in HC. destruct HC as [off2 [_ HC]]. injection HC as <-. cbn [cs_entries cs_codes] in *.
+  set (st1 := mkCst (cs_off st + (UnitWr.blen cb + (if sib then wsz (wc_enc cx) else 0) + ops_len aops)) ents tab codes) in *.
+  assert (Epos : cs_off st + (UnitWr.blen cb + (if sib then wsz (wc_enc cx) else 0)) + ops_len aops = cs_off st1)
+    by (unfold st1; cbn [cs_off]; lia).
+  rewrite Epos.
+  assert (Nl : write_list dbg cx (c :: r) (cs_off st1) <> Panic).
+  { apply (write_list_np dbg cx (c :: r) IH st1 st2 E2); try assumption.
+    - intros i Hi. apply HE. now right.
+    - intros i Hi. apply HA. now right.
+    - unfold st1; cbn [cs_off]; lia.
+    - unfold st1; cbn [cs_off]; lia.
+    - unfold st1; cbn [cs_off]. destruct sib; lia. }
+  destruct (write_list dbg cx (c :: r) (cs_off st1)) as [cops| | |]; try discriminate; [|contradiction].
+  cbn [bind].
+  destruct sib.
+  - rewrite chk_sub_ok by lia. cbn [bind].
+    match goal with |- context [write_udata ?b ?v ?w] =>
+      assert (Nu := write_udata_no_panic b v w); destruct (write_udata b v w); try discriminate; contradiction end.
+  - discriminate.
+Qed.
